@@ -286,7 +286,7 @@ func (g *Gen) Primary(d int) string {
 	case 8:
 		// conversion
 		t := g.Type(d - 1)
-		if strings.HasPrefix(t, "*") || strings.HasPrefix(t, "<-") || strings.HasPrefix(t, "func") || strings.HasPrefix(t, "chan") {
+		if strings.HasPrefix(t, "*") || strings.HasPrefix(t, "<-") || strings.Contains(t, "func") || strings.Contains(t, "chan") {
 			t = "(" + t + ")"
 		}
 		return t + "(" + g.Expr(d-1) + ")"
